@@ -469,6 +469,14 @@ right; the machinery was corrected, nothing was added to the known findings, no 
 * Fourth session, a lesson about the machinery: `git add -A` right after a queue of seeded changes committed
   `Gen/Fsm.lean` as regenerated under the last change tried (harmless for the checks, which regenerate on
   every run, but wrong as a record); `tools/seeded_try.sh` now regenerates after it has undone a change.
+* Fourth session, last hours, two alarms of new oracles caught on the unchanged tree before they were committed:
+  the new op "aborted attempt" answered `-` where the oracle and the model line expect the place to be empty
+  (`?`), which showed as a disagreement with the model on every case that contained one; and one of the five
+  rewound-delivery scenarios rewound to a point within the last two octets received, which the code's position
+  counting (windows of three octets) never finds: the delivery then holds an octet twice and no longer decodes,
+  and the scenario's expectation — built from the same counting — was a message that cannot be decoded either.
+  The op now answers `?`; the scenario rewinds to an octet the counting can name, and what it cannot name is
+  recorded in §13 as observed, not judged.
 * Fourth session, a lesson about the machinery: a `pkill` meant for a build of the working copy also killed
   the build of the queue that was trying seeded change C02-d2; the change was first recorded as caught
   ("harness-build") and not confirmed. It was re-confirmed in a clean clone and re-tried on a quiet tree (it
